@@ -73,6 +73,8 @@ BOUNDARY_STRINGS = [
     "", "0x" + pat(32, 1).hex(), pat(32, 1).hex().upper(), pat(32, 1).hex()[:-1], "zz" * 32,
     "m/44'/0'/0'/0/0", "m/44'/0'/0'/0", "m/44'/0'/0'/0/0/0", "m/44'/2147483648/0'/0/0", "m/44'/2147483647'/0'/0/0",
     "44'/0'/0'/0/0", "m/44'/0'/0'//0", "m/44'/0'/0'/0/-1", "m/44''/0'/0'/0/0", "m/", "legacy", "segwit", "Legacy",
+    # the right number of CHARACTERS but, because of blanks bytes.fromhex skips, one or two bytes short
+    "  " + pat(31, 1).hex(), pat(30, 1).hex() + "    ", " " + pat(15, 2).hex() + " ", pat(31, 1).hex()[:30] + "  " + pat(31, 1).hex()[30:],
 ]
 
 NKINDS = 10
